@@ -263,6 +263,8 @@ class ExprMixin:
     def getattr_(self, obj, name, fr=None):
         if isinstance(obj, ObjModel):
             return self.obj_getattr(obj, name)
+        if isinstance(obj, SuperProxy):
+            return obj.__getattr__(name)
         if isinstance(obj, np.ndarray):
             if name == "data":
                 flat = obj.reshape(-1) if obj.flags["C_CONTIGUOUS"] else obj
@@ -503,7 +505,11 @@ class ExprMixin:
             try:
                 return base[idx]
             except IndexError as e:
-                raise CFault("array index out of bounds: %s" % e)
+                j = self._c_flat(base, idx)
+                if j is None:
+                    raise CFault("array index out of bounds: %s" % e)
+                self.oob_events.append(("read", tuple(idx), base.shape))
+                return base.reshape(-1)[j]
         if isinstance(base, (list, tuple, str)) and is_sym(idx):
             idx = ctx().concretize(idx, 0, len(base))
         if isinstance(base, CVector):
@@ -512,6 +518,20 @@ class ExprMixin:
             except IndexError:
                 raise CFault("vector index out of range: %r (size %d)" % (idx, len(base)))
         return base[idx]
+
+    def _c_flat(self, base, idx):
+        """boundscheck=False semantics: an out-of-range index on one axis of a C-contiguous buffer
+        addresses flat offset sum(i_k*stride_k); None when that leaves the buffer."""
+        if not (isinstance(idx, tuple) and len(idx) == base.ndim and base.flags["C_CONTIGUOUS"]):
+            return None
+        if not all(isinstance(i, (int, np.integer)) for i in idx):
+            return None
+        j = 0
+        for i, n in zip(idx, base.shape):
+            j = j * n + int(i)
+        if any(i < 0 for i in idx) or j < 0 or j >= base.size:
+            return None
+        return j
 
     def _np_index(self, base, idx):
         if isinstance(idx, tuple):
@@ -538,7 +558,11 @@ class ExprMixin:
             try:
                 base[idx] = v
             except IndexError as e:
-                raise CFault("array store out of bounds: %s" % e)
+                j = self._c_flat(base, idx)
+                if j is None:
+                    raise CFault("array store out of bounds: %s" % e)
+                self.oob_events.append(("write", tuple(idx), base.shape))
+                base.reshape(-1)[j] = v
             return
         if isinstance(base, list) and is_sym(idx):
             idx = ctx().concretize(idx, 0, len(base))
